@@ -23,7 +23,8 @@ namespace {
 
 enum Act { MARK, PASS, FAIL_CPP, FAIL_C, THROW_STD, THROW_INT, FAILTEXT_CPP, FAILTEXT_C };
 const char* ACT_NAME[] = {"mark", "pass", "CHECK!", "CHECK_C!", "throw-std", "throw-int", "FAIL", "FAIL_C"};
-struct Action { Act act; int line; };
+struct Action { Act act; int line; unsigned reps; };   // reps: bit k set = the failing action is armed in repetition k+1 (otherwise it only marks)
+int g_rep = 0;                                           // current repetition (0-based), advanced by the output's printTestsStarted
 struct TestSpec {
     bool ignored; int group; std::string name; int line;
     std::vector<Action> phase[3];
@@ -44,7 +45,8 @@ void interpret(int t, int ph) {
     for (size_t i = 0; i < acts.size(); i++) {
         g_trace.push_back(TraceEv{t, ph, (int)i});
         const Action& a = acts[i];
-        switch (a.act) {
+        Act eff = (a.act != MARK && a.act != PASS && !((a.reps >> (g_rep & 3)) & 1)) ? MARK : a.act;
+        switch (eff) {
         case MARK: break;
         case PASS: CHECK_TRUE_LOCATION(true, "CHECK", "true", NULLPTR, TESTFILE, (size_t)a.line); break;
         case FAIL_CPP: CHECK_TRUE_LOCATION(false, "CHECK", "cond", NULLPTR, TESTFILE, (size_t)a.line); break;
@@ -120,6 +122,7 @@ public:
     std::string text;
     void printBuffer(const char* s) CPPUTEST_OVERRIDE { text += s; }
     void flush() CPPUTEST_OVERRIDE {}
+    void printTestsStarted() CPPUTEST_OVERRIDE { g_rep++; TestOutput::printTestsStarted(); }
 };
 class Runner : public CommandLineTestRunner {
 public:
@@ -136,7 +139,7 @@ struct FailRec { std::string loc; std::string test; std::string kind;
     bool operator==(const FailRec& o) const { return loc == o.loc && test == o.test && kind == o.kind; } };
 struct RepModel { size_t tests = 0, ran = 0, checks = 0, ignored = 0, filtered = 0, failures = 0; std::vector<TraceEv> trace; std::multiset<FailRec> fails; };
 
-RepModel model_repetition(bool group_filter, int filter_group, bool run_ignored) {
+RepModel model_repetition(bool group_filter, int filter_group, bool run_ignored, int rep) {
     RepModel m;
     for (size_t t = 0; t < g_prog.size(); t++) {
         const TestSpec& s = g_prog[t];
@@ -153,7 +156,7 @@ RepModel model_repetition(bool group_filter, int filter_group, bool run_ignored)
                 const Action& a = s.phase[ph][i];
                 m.trace.push_back(TraceEv{(int)t, ph, (int)i});
                 if (a.act == PASS) m.checks++;
-                if (is_failing(a.act)) {
+                if (is_failing(a.act) && ((a.reps >> (rep & 3)) & 1)) {
                     if (!is_throw(a.act)) { m.checks++; m.fails.insert(FailRec{sfmt("%s:%d", TESTFILE, a.line), tname, ACT_NAME[a.act]}); }
                     else m.fails.insert(FailRec{sfmt("%s:%d", TESTFILE, s.line), tname, ACT_NAME[a.act]});
                     if (ph == 0) setup_ok = false;
@@ -215,7 +218,7 @@ std::string render() {
     std::string d;
     for (auto& s : g_prog) {
         d += sfmt("%s%s.%s{", s.ignored ? "IGN " : "", GROUPS[s.group], s.name.c_str());
-        for (int ph = 0; ph < 3; ph++) { for (auto& a : s.phase[ph]) d += std::string(ACT_NAME[a.act]) + ","; d += ph < 2 ? "|" : ""; }
+        for (int ph = 0; ph < 3; ph++) { for (auto& a : s.phase[ph]) d += std::string(ACT_NAME[a.act]) + ((is_failing(a.act) && a.reps != 15) ? sfmt("@%x", a.reps) : std::string()) + ","; d += ph < 2 ? "|" : ""; }
         d += sfmt("}p%d/%d ", s.plugin_pre, s.plugin_post);
     }
     return d;
@@ -223,7 +226,7 @@ std::string render() {
 
 int run_case(Reader& r, bool& nontrivial, std::string& desc) {
     // ---- decode
-    g_prog.clear(); g_trace.clear(); g_shells.clear(); g_probe = Probe();
+    g_prog.clear(); g_trace.clear(); g_shells.clear(); g_probe = Probe(); g_rep = -1;
     bool use_runner = r.below(4) != 1;
     int repeat = use_runner ? 1 + (int)r.below(4) : 1;
     bool group_filter = r.below(4) == 1; int filter_group = (int)r.below(3);
@@ -244,7 +247,7 @@ int run_case(Reader& r, bool& nontrivial, std::string& desc) {
 #if !CPPUTEST_HAVE_EXCEPTIONS
                 if (is_throw(a)) a = FAIL_CPP;
 #endif
-                s.phase[ph].push_back(Action{a, 0});
+                s.phase[ph].push_back(Action{a, 0, (repeat > 1 && r.below(3) == 1) ? 1 + r.below(15) : 15u});
             }
         }
         s.plugin_pre = r.below(8) == 1 ? 1 + (int)r.below(2) : 0; s.plugin_post = r.below(8) == 1 ? 1 : 0;
@@ -310,9 +313,10 @@ int run_case(Reader& r, bool& nontrivial, std::string& desc) {
     V_CHECK(!g_probe.bad, "C01:history-invariant", "%s [%s]", g_probe.msg.c_str(), desc.c_str());
     V_CHECK(CppUTestVerif_JumpBufferDepth() == depth_before, "C01:jump-depth", "jump-buffer depth %d after the run, %d before [%s]", CppUTestVerif_JumpBufferDepth(), depth_before, desc.c_str());
     V_CHECK(UtestShell::getCurrent() == cur_before && current_result() == res_before, "C01:current-restored", "current test / result not restored after the run [%s]", desc.c_str());
-    RepModel m = model_repetition(group_filter, filter_group, run_ignored);
-    // trace: same events per repetition
-    std::vector<TraceEv> want; for (int k = 0; k < repeat; k++) want.insert(want.end(), m.trace.begin(), m.trace.end());
+    std::vector<RepModel> ms; for (int k = 0; k < repeat; k++) ms.push_back(model_repetition(group_filter, filter_group, run_ignored, k));
+    const RepModel& m = ms[0];
+    // trace: the events of every repetition, in order
+    std::vector<TraceEv> want; for (int k = 0; k < repeat; k++) want.insert(want.end(), ms[k].trace.begin(), ms[k].trace.end());
     if (!(want == g_trace)) {
         size_t i = 0; while (i < want.size() && i < g_trace.size() && want[i] == g_trace[i]) i++;
         std::string w = i < want.size() ? sfmt("test %d phase %d action %d", want[i].test, want[i].phase, want[i].idx) : "end", g = i < g_trace.size() ? sfmt("test %d phase %d action %d", g_trace[i].test, g_trace[i].phase, g_trace[i].idx) : "end";
@@ -321,26 +325,28 @@ int run_case(Reader& r, bool& nontrivial, std::string& desc) {
     V_CHECK(g_probe.pre_seen == (int)(m.ran * repeat) && g_probe.post_seen == g_probe.pre_seen, "C01:plugin-actions", "plugin saw %d pre / %d post actions, expected %zu", g_probe.pre_seen, g_probe.post_seen, m.ran * repeat);
     // failures printed exactly once each
     std::vector<FailRec> got = parse_failures(out); std::multiset<FailRec> gs(got.begin(), got.end()), ws;
-    for (int k = 0; k < repeat; k++) ws.insert(m.fails.begin(), m.fails.end());
+    for (int k = 0; k < repeat; k++) ws.insert(ms[k].fails.begin(), ms[k].fails.end());
     if (gs != ws) {
         for (auto& f : ws) if (gs.count(f) != ws.count(f)) return verif::fail("C01:failure-print", "failure %s at %s in %s printed %zu time(s), expected %zu [%s]", f.kind.c_str(), f.loc.c_str(), f.test.c_str(), gs.count(f), ws.count(f), desc.c_str());
         for (auto& f : gs) if (!ws.count(f)) return verif::fail("C01:failure-print", "unexpected failure record %s at %s in %s [%s]", f.kind.c_str(), f.loc.c_str(), f.test.c_str(), desc.c_str());
     }
-    // summaries
+    // summaries, one per repetition, each judged against that repetition's model
     std::vector<Summary> sums;
     V_CHECK(parse_summaries(out, sums), "C01:summary-format", "cannot parse a summary line [%s] output: %.300s", desc.c_str(), out.c_str());
     V_CHECK((int)sums.size() == repeat, "C01:summary-count", "%zu summaries for %d repetition(s)", sums.size(), repeat);
     bool all_ok = true;
-    for (auto& s : sums) {
-        bool want_ok = m.failures == 0 && (m.ran + m.ignored) > 0;
+    for (int k = 0; k < repeat; k++) {
+        const Summary& s = sums[k]; const RepModel& mk = ms[k];
+        bool want_ok = mk.failures == 0 && (mk.ran + mk.ignored) > 0;
         all_ok = all_ok && want_ok;
-        V_CHECK(s.ok == want_ok, "C01:summary-verdict", "summary reads %s with %zu failures, %zu ran, %zu ignored [%s]", s.ok ? "OK" : "Errors", m.failures, m.ran, m.ignored, desc.c_str());
-        V_CHECK(s.tests == (long)m.tests && s.ran == (long)m.ran && s.checks == (long)m.checks && s.ignored == (long)m.ignored && s.filtered == (long)m.filtered,
-                "C01:summary-counts", "summary %ld tests %ld ran %ld checks %ld ignored %ld filtered; model %zu/%zu/%zu/%zu/%zu [%s]", s.tests, s.ran, s.checks, s.ignored, s.filtered, m.tests, m.ran, m.checks, m.ignored, m.filtered, desc.c_str());
-        if (!s.ok) { if (m.failures) V_CHECK(!s.ran_nothing && s.failures == (long)m.failures, "C01:summary-failures", "summary states %ld failures, model %zu [%s]", s.failures, m.failures, desc.c_str());
+        V_CHECK(s.ok == want_ok, "C01:summary-verdict", "summary of repetition %d reads %s with %zu failures, %zu ran, %zu ignored [%s]", k + 1, s.ok ? "OK" : "Errors", mk.failures, mk.ran, mk.ignored, desc.c_str());
+        V_CHECK(s.tests == (long)mk.tests && s.ran == (long)mk.ran && s.checks == (long)mk.checks && s.ignored == (long)mk.ignored && s.filtered == (long)mk.filtered,
+                "C01:summary-counts", "summary of repetition %d: %ld tests %ld ran %ld checks %ld ignored %ld filtered; model %zu/%zu/%zu/%zu/%zu [%s]", k + 1, s.tests, s.ran, s.checks, s.ignored, s.filtered, mk.tests, mk.ran, mk.checks, mk.ignored, mk.filtered, desc.c_str());
+        if (!s.ok) { if (mk.failures) V_CHECK(!s.ran_nothing && s.failures == (long)mk.failures, "C01:summary-failures", "summary of repetition %d states %ld failures, model %zu [%s]", k + 1, s.failures, mk.failures, desc.c_str());
                      else V_CHECK(s.ran_nothing, "C01:summary-failures", "no failure and nothing run, but the summary does not say so"); }
     }
     if (rv_valid) V_CHECK((rv == 0) == all_ok, "C01:return-value", "runner returned %d, repetitions all OK = %d [%s]", rv, all_ok, desc.c_str());
+    { bool differ = false; for (int k = 1; k < repeat; k++) if (ms[k].failures != ms[0].failures) differ = true; if (differ) verif::cls("repetitions-differ"); }
 
     // ---- non-trivial rule
     int consecutive = 0, best = 0; bool fail_then_pass = false, outside_body = false, prev_failed = false;
